@@ -8,7 +8,7 @@
 #include "peek.h"
 
 static const char *ARM[] = { "setword", "setword", "setbyte", "set3", "hsfield", "hsfield", "hsfield", "flipbit", "flipbit", "trunc", "extend", "setlen", "setlen",
-                             "type", "ver", "epoch", "seq", "dup", "drop", "swapnext", "refrag", "refrag", "grow", "grow", "grow", "shrink", "fragmove", "cutfront" };
+                             "type", "ver", "epoch", "seq", "dup", "drop", "swapnext", "refrag", "refrag", "grow", "grow", "grow", "shrink", "fragmove", "cutfront", "vecgrow", "vecgrow", "vecgrow" };
 static const char *INJ[] = { "garbage", "plain23", "replay", "reflect", "cross", "relabel", "alert", "hsmsg", "hsmsg", "ccs" };
 static const int PMTUS[] = { 1500, 1500, 900, 600, 400 };
 
@@ -136,6 +136,26 @@ static std::vector<Plan> c08_fixed(int tier) {
                         p.cfg["ver"] = ver; p.cfg["suite"] = TLS_RSA_WITH_AES_128_CBC_SHA; p.cfg["pmtu"] = pm ? 600 : 400;
                         if (park) { p.ops.push_back(Op("steps", park)); }
                         p.ops.push_back(Op("arm", dir, var * 2 + 1, var & 1, park % 4, "fragmove"));     // the (park%4+1)-th next record: later fragments of a flight too
+                        p.ops.push_back(Op("hs"));
+                        v.push_back(p);
+                    }
+                }
+            }
+        }
+    }
+    // every length-prefixed vector inside every plaintext handshake message (client authentication on, so CertificateRequest and the client's
+    // Certificate / CertificateVerify exist) made longer than any honest peer makes it: by a few items and by thousands
+    for (int ver = 0; ver < 5; ver++) {
+        for (int park = 0; park <= (ver == 2 ? 1 : 5); park++) {
+            for (int dir = 0; dir < 2; dir++) {
+                for (int cand = 0; cand < (tier ? 40 : 14); cand++) {
+                    for (int big = 0; big < 2; big++) {
+                        Plan p; p.seed = 84000 + (uint64_t) ((((ver * 10 + park) * 2 + dir) * 40 + cand) * 2 + big);
+                        p.cfg["ver"] = ver; p.cfg["cauth"] = KK_RSA2048;
+                        if (ver == 2) { p.cfg["suite"] = TLS_AES_128_GCM_SHA256; p.cfg["sid_kind"] = KK_EC256; }
+                        else { p.cfg["suite"] = (cand & 1) ? TLS_ECDHE_RSA_WITH_AES_128_CBC_SHA : TLS_RSA_WITH_AES_128_CBC_SHA; }
+                        // park = how many honest records of that direction pass first (flights are emitted record by record in one go)
+                        p.ops.push_back(Op("arm", dir, big ? 4 * (1500 + cand * 150) : 4 * (10 + cand) + 1, cand, park, "vecgrow"));
                         p.ops.push_back(Op("hs"));
                         v.push_back(p);
                     }
